@@ -424,6 +424,8 @@ func runC05(r *Run) {
 		r.Check(n1 == n2, "C05.6", pr[0]+"~"+pr[1]+"(results)", w.Pos(f1.Pos()), "siblings return the same result constants: "+n1+" vs "+n2)
 	}
 	r.Expect("C05.6", 20, "sibling pairs")
+	// replayed commit certificates are votes too: whose keys verify them is C01.4e
+	r.Borrow(runC01, "C01", "C01.4e", "C05.8", "signatures of a replayed commit are verified under the voting view's validator keys, not keys carried by the replayed header")
 }
 
 type kindSum struct {
@@ -431,8 +433,6 @@ type kindSum struct {
 	results []string
 }
 
-// kindSummary collects kind-tagged symbols (callees, fields, types, constants
-// of module packages) referenced by fn and its closures, and the constants it returns.
 func kindSummary(w *World, fn *ssa.Function) kindSum {
 	syms := map[string]bool{}
 	var visit func(f *ssa.Function)
